@@ -76,7 +76,10 @@ fn ref_decode(tlv: &[u8]) -> Result<AV, String> {
     let (ty, len) = (tlv[0], tlv[1] as usize);
     let d = &tlv[2..];
     if d.len() != len {
-        return Err(format!("attribute declares {len} value octets, {} present", d.len()));
+        return Err(format!(
+            "attribute declares {len} value octets, {} present",
+            d.len()
+        ));
     }
     let uint = |d: &[u8]| -> u64 { d.iter().rev().fold(0u64, |a, b| (a << 8) | *b as u64) };
     Ok(match ty {
@@ -123,13 +126,23 @@ fn attr_of_header<'a>(objs: &HeaderCollection<'a>) -> Result<(u8, u8, AttrValue<
         return Err("more than one object header".into());
     }
     match h.details {
-        HeaderDetails::OneByteStartStop(a, b, RangedVariation::Group0(var, Some(attr))) if a == b => {
+        HeaderDetails::OneByteStartStop(a, b, RangedVariation::Group0(var, Some(attr)))
+            if a == b =>
+        {
             if attr.variation != var || attr.set.value() != a {
-                return Err(format!("header says set {a} variation {var}, attribute says set {} variation {}", attr.set.value(), attr.variation));
+                return Err(format!(
+                    "header says set {a} variation {var}, attribute says set {} variation {}",
+                    attr.set.value(),
+                    attr.variation
+                ));
             }
             Ok((a, var, attr.value))
         }
-        _ => Err(format!("parsed as {:?} {:?}", h.variation, h.details.qualifier())),
+        _ => Err(format!(
+            "parsed as {:?} {:?}",
+            h.variation,
+            h.details.qualifier()
+        )),
     }
 }
 
@@ -140,14 +153,21 @@ pub fn run_value(c: &ValueCase) -> CaseOut {
     let mut buf = vec![0u8; 600];
     let mut cursor = WriteCursor::new(&mut buf);
     let written = {
-        let mut w = match start_request(ControlField::request(Sequence::new(3)), FunctionCode::Write, &mut cursor) {
+        let mut w = match start_request(
+            ControlField::request(Sequence::new(3)),
+            FunctionCode::Write,
+            &mut cursor,
+        ) {
             Ok(w) => w,
             Err(_) => return out,
         };
         w.write_attribute(&owned)
     };
     if written.is_err() {
-        out.fail(Fail::new("T-write", format!("write_attribute failed for {:?}", c)));
+        out.fail(Fail::new(
+            "T-write",
+            format!("write_attribute failed for {:?}", c),
+        ));
         return out;
     }
     let bytes = cursor.written().to_vec();
@@ -161,18 +181,43 @@ pub fn run_value(c: &ValueCase) -> CaseOut {
         AV::Time(_) => "time",
     });
     // (1) the wire form, read by the reference: g0 vN, qualifier 00, start = stop = set, then the value
-    if bytes.len() < 9 || bytes[2] != 0 || bytes[3] != c.var || bytes[4] != 0 || bytes[5] != c.set || bytes[6] != c.set {
-        out.fail(Fail::new("T-wire-header", format!("attribute header octets {:02x?} for set {} variation {}", &bytes[2..bytes.len().min(7)], c.set, c.var)));
+    if bytes.len() < 9
+        || bytes[2] != 0
+        || bytes[3] != c.var
+        || bytes[4] != 0
+        || bytes[5] != c.set
+        || bytes[6] != c.set
+    {
+        out.fail(Fail::new(
+            "T-wire-header",
+            format!(
+                "attribute header octets {:02x?} for set {} variation {}",
+                &bytes[2..bytes.len().min(7)],
+                c.set,
+                c.var
+            ),
+        ));
         return out;
     }
     match ref_decode(&bytes[7..]) {
         Ok(v) if v == want => {}
         Ok(v) => {
-            out.fail(Fail::new("T-wire-value", format!("{:?} was encoded as {:02x?}, which reads as {:?}", c.val, &bytes[7..], v)));
+            out.fail(Fail::new(
+                "T-wire-value",
+                format!(
+                    "{:?} was encoded as {:02x?}, which reads as {:?}",
+                    c.val,
+                    &bytes[7..],
+                    v
+                ),
+            ));
             return out;
         }
         Err(e) => {
-            out.fail(Fail::new("T-wire-value", format!("{:?} was encoded as {:02x?}: {e}", c.val, &bytes[7..])));
+            out.fail(Fail::new(
+                "T-wire-value",
+                format!("{:?} was encoded as {:02x?}: {e}", c.val, &bytes[7..]),
+            ));
             return out;
         }
     }
@@ -183,7 +228,10 @@ pub fn run_value(c: &ValueCase) -> CaseOut {
         let p = match ParsedFragment::parse(ParseOptions::default(), frag) {
             Ok(p) => p,
             Err(e) => {
-                out.fail(Fail::new("T-parse", format!("{name}: header rejected: {e:?}")));
+                out.fail(Fail::new(
+                    "T-parse",
+                    format!("{name}: header rejected: {e:?}"),
+                ));
                 return out;
             }
         };
@@ -249,7 +297,9 @@ impl Prop for AttrValues {
         "device attributes of every data type (strings of 0..255 octets, unsigned and signed integers at the 8/16/32-bit boundaries, floats by bit pattern, time, bit strings) in any set and variation 1..=253 are written with HeaderWriter::write_attribute; the wire form is decoded by a reference decoder of the type/length/value layout (two's complement, little endian) and by the library parser both as a WRITE request and as a response: set, variation and value must equal the described ones; every case is non-trivial"
     }
     fn strategy(_tier: Tier) -> BoxedStrategy<ValueCase> {
-        (any::<u8>(), 1u8..=253, av_strategy()).prop_map(|(set, var, val)| ValueCase { set, var, val }).boxed()
+        (any::<u8>(), 1u8..=253, av_strategy())
+            .prop_map(|(set, var, val)| ValueCase { set, var, val })
+            .boxed()
     }
     fn cases(tier: Tier) -> u32 {
         match tier {
@@ -305,11 +355,17 @@ enum Delivered {
 pub fn run_resp(case: &RespCase) -> CaseOut {
     let mut out = CaseOut::default();
     ParseOptions::parse_zero_length_strings(false);
-    let mut handle = DatabaseHandle::new(None, ClassZeroConfig::default(), EventBufferConfig::no_events());
+    let mut handle = DatabaseHandle::new(
+        None,
+        ClassZeroConfig::default(),
+        EventBufferConfig::no_events(),
+    );
     let mut defined: BTreeMap<(u8, u8), (AV, bool)> = BTreeMap::new();
     let mut bad: Option<String> = None;
     let dense: Vec<(u8, u8, AV, bool)> = match case.dense {
-        Some((s, n)) => (1..=n.min(253)).map(|v| (s, v, AV::UInt(v as u32), v % 3 == 0)).collect(),
+        Some((s, n)) => (1..=n.min(253))
+            .map(|v| (s, v, AV::UInt(v as u32), v % 3 == 0))
+            .collect(),
         None => vec![],
     };
     handle.transaction(|db| {
@@ -326,12 +382,24 @@ pub fn run_resp(case: &RespCase) -> CaseOut {
             if 5 + 2 + vlen > (case.tx.clamp(249, 2048) as usize) - 4 {
                 continue;
             }
-            let prop = if *writable { AttrProp::writable() } else { AttrProp::default() };
-            match db.define_attr(prop, OwnedAttribute::new(AttrSet::new(set), *var, to_owned_value(val))) {
+            let prop = if *writable {
+                AttrProp::writable()
+            } else {
+                AttrProp::default()
+            };
+            match db.define_attr(
+                prop,
+                OwnedAttribute::new(AttrSet::new(set), *var, to_owned_value(val)),
+            ) {
                 Ok(()) => {
                     defined.insert((set, *var), (canon(val), *writable));
                 }
-                Err(e) => bad = Some(format!("define_attr(set {set}, variation {var}, {:?}) failed: {:?}", val, e)),
+                Err(e) => {
+                    bad = Some(format!(
+                        "define_attr(set {set}, variation {var}, {:?}) failed: {:?}",
+                        val, e
+                    ))
+                }
             }
         }
     });
@@ -349,8 +417,23 @@ pub fn run_resp(case: &RespCase) -> CaseOut {
         s.dedup();
         s
     };
-    let all_of = |set: u8| -> Vec<Delivered> { defined.iter().filter(|(k, _)| k.0 == set).map(|(k, v)| Delivered::Value(k.0, k.1, v.0.clone())).collect() };
-    let list_of = |set: u8| -> Delivered { Delivered::List(set, defined.iter().filter(|(k, _)| k.0 == set).map(|(k, v)| (k.1, v.1)).collect()) };
+    let all_of = |set: u8| -> Vec<Delivered> {
+        defined
+            .iter()
+            .filter(|(k, _)| k.0 == set)
+            .map(|(k, v)| Delivered::Value(k.0, k.1, v.0.clone()))
+            .collect()
+    };
+    let list_of = |set: u8| -> Delivered {
+        Delivered::List(
+            set,
+            defined
+                .iter()
+                .filter(|(k, _)| k.0 == set)
+                .map(|(k, v)| (k.1, v.1))
+                .collect(),
+        )
+    };
     for r in &case.reqs {
         match r {
             AReq::Everything => {
@@ -368,7 +451,11 @@ pub fn run_resp(case: &RespCase) -> CaseOut {
                 let set = set_of(*s);
                 // pick a defined variation of that set when there is one (monotone), else the raw number
                 let vars: Vec<u8> = defined.keys().filter(|k| k.0 == set).map(|k| k.1).collect();
-                let var = if vars.is_empty() { (*var).clamp(1, 253) } else { vars[(*var as usize * vars.len()) >> 8] };
+                let var = if vars.is_empty() {
+                    (*var).clamp(1, 253)
+                } else {
+                    vars[(*var as usize * vars.len()) >> 8]
+                };
                 if !defined.contains_key(&(set, var)) {
                     continue; // an undefined attribute is refused with an IIN2 bit (C12's business)
                 }
@@ -394,10 +481,17 @@ pub fn run_resp(case: &RespCase) -> CaseOut {
         return out;
     }
     let req = Fragment::request(0, func::READ, o).encode();
-    let parsed = match ParsedFragment::parse(ParseOptions::default(), &req).ok().and_then(|p| p.to_request().ok()).and_then(|r| r.objects.ok()) {
+    let parsed = match ParsedFragment::parse(ParseOptions::default(), &req)
+        .ok()
+        .and_then(|p| p.to_request().ok())
+        .and_then(|r| r.objects.ok())
+    {
         Some(h) => h,
         None => {
-            out.fail(Fail::new("G-request", format!("library parser rejected the attribute READ {:02x?}", req)));
+            out.fail(Fail::new(
+                "G-request",
+                format!("library parser rejected the attribute READ {:02x?}", req),
+            ));
             return out;
         }
     };
@@ -407,7 +501,11 @@ pub fn run_resp(case: &RespCase) -> CaseOut {
         return out;
     }
     // a variation list larger than a whole fragment can never be reported (outside the domain): make room for the longest
-    let longest_list = sets.iter().map(|s| 7 + 2 * defined.keys().filter(|k| k.0 == *s).count()).max().unwrap_or(0);
+    let longest_list = sets
+        .iter()
+        .map(|s| 7 + 2 * defined.keys().filter(|k| k.0 == *s).count())
+        .max()
+        .unwrap_or(0);
     let objsize = ((case.tx.clamp(249, 2048) as usize) - 4).max(longest_list);
     let mut got: Vec<Delivered> = vec![];
     let mut nfrag = 0;
@@ -420,7 +518,11 @@ pub fn run_resp(case: &RespCase) -> CaseOut {
         nfrag += 1;
         let mut f = vec![0xC0, 129, 0, 0];
         f.extend_from_slice(&buf[..len]);
-        let objs = match ParsedFragment::parse(ParseOptions::default(), &f).ok().and_then(|p| p.to_response().ok()).map(|r| r.objects) {
+        let objs = match ParsedFragment::parse(ParseOptions::default(), &f)
+            .ok()
+            .and_then(|p| p.to_response().ok())
+            .map(|r| r.objects)
+        {
             Some(Ok(o)) => o,
             Some(Err(e)) => {
                 out.fail(Fail::new("W-parse", format!("fragment #{nfrag} of the attribute response does not parse with the library's own parser: {e:?}; {} object octets: {:02x?}", len, &f[4..])));
@@ -436,20 +538,34 @@ pub fn run_resp(case: &RespCase) -> CaseOut {
             return out;
         }
         for h in objs.iter() {
-            if let HeaderDetails::OneByteStartStop(a, b, RangedVariation::Group0(var, Some(attr))) = h.details {
+            if let HeaderDetails::OneByteStartStop(a, b, RangedVariation::Group0(var, Some(attr))) =
+                h.details
+            {
                 if a != b || attr.set.value() != a || attr.variation != var {
                     out.fail(Fail::new("W-attr-header", format!("attribute header range {a}..{b} variation {var} carries set {} variation {}", attr.set.value(), attr.variation)));
                     return out;
                 }
                 match attr.value {
-                    AttrValue::AttrList(l) => got.push(Delivered::List(a, l.iter().map(|i| (i.variation, i.properties.is_writable())).collect())),
+                    AttrValue::AttrList(l) => got.push(Delivered::List(
+                        a,
+                        l.iter()
+                            .map(|i| (i.variation, i.properties.is_writable()))
+                            .collect(),
+                    )),
                     v => match from_lib(&v) {
                         Some(x) => got.push(Delivered::Value(a, var, x)),
                         None => {}
                     },
                 }
             } else {
-                out.fail(Fail::new("W-attr-header", format!("attribute response contains {:?} {:?}", h.variation, h.details.qualifier())));
+                out.fail(Fail::new(
+                    "W-attr-header",
+                    format!(
+                        "attribute response contains {:?} {:?}",
+                        h.variation,
+                        h.details.qualifier()
+                    ),
+                ));
                 return out;
             }
         }
@@ -459,12 +575,18 @@ pub fn run_resp(case: &RespCase) -> CaseOut {
         }
         if len == 0 {
             // an attribute that can never fit would stall the series; such attributes are not defined by this generator
-            out.fail(Fail::new("G-progress", "an empty, incomplete attribute response fragment was produced".to_string()));
+            out.fail(Fail::new(
+                "G-progress",
+                "an empty, incomplete attribute response fragment was produced".to_string(),
+            ));
             return out;
         }
     }
     if !done {
-        out.fail(Fail::new("G-progress", "attribute response did not complete in 3000 fragments".to_string()));
+        out.fail(Fail::new(
+            "G-progress",
+            "attribute response did not complete in 3000 fragments".to_string(),
+        ));
         return out;
     }
     if nfrag > 1 {
@@ -473,11 +595,18 @@ pub fn run_resp(case: &RespCase) -> CaseOut {
     if expect.iter().any(|d| matches!(d, Delivered::List(..))) {
         out.label("list");
     }
-    if expect.iter().any(|d| matches!(d, Delivered::List(_, l) if l.len() >= 126)) {
+    if expect
+        .iter()
+        .any(|d| matches!(d, Delivered::List(_, l) if l.len() >= 126))
+    {
         out.label("long_list");
     }
     if got != expect {
-        let k = got.iter().zip(expect.iter()).position(|(a, b)| a != b).unwrap_or(got.len().min(expect.len()));
+        let k = got
+            .iter()
+            .zip(expect.iter())
+            .position(|(a, b)| a != b)
+            .unwrap_or(got.len().min(expect.len()));
         out.fail(Fail::new(
             "W-attr-content",
             format!("attribute response delivered {} items, {} expected; first difference at #{k}: got {:?}, expected {:?}", got.len(), expect.len(), got.get(k), expect.get(k)),
